@@ -1533,8 +1533,8 @@ impl Tree {
         for pair in self.get_leaves().iter().combinations(2) {
             let (i1, i2) = (pair[0], pair[1]);
             let d = cache[*i1][*i2];
-            let name1 = self.get(i1)?.name.clone().unwrap();
-            let name2 = self.get(i2)?.name.clone().unwrap();
+            let name1 = self.get(i1)?.name.clone().ok_or(TreeError::UnnamedLeaves)?;
+            let name2 = self.get(i2)?.name.clone().ok_or(TreeError::UnnamedLeaves)?;
 
             matrix.set(&name1, &name2, d)?;
         }
